@@ -232,6 +232,42 @@ def tripsOfStep (sched : Sched K) (its : List (Nat × Option Nat)) : List (Perio
 def tripsOfSteps (calls : List (Sched K × List (Nat × Option Nat))) : List (Period K × Nat) :=
   calls.flatMap fun c => tripsOfStep c.1 c.2
 
+/-! ### the scheduling step of `run()` and the state it touches -/
+
+/-- what simulator.py:124-131 reads and writes: the matrix, `_resolve`, `_last_schedule_update`,
+    `schedule_history` (a dict: a later entry for the same period wins) -/
+structure SchedState (K : Type) where
+  m : Mat K
+  resolve : Bool
+  lastUpdate : Option Nat
+  history : List (Nat × Sched K)
+
+/-- simulator.py:116-123: is the scheduler to be called in period `t`? -/
+def mustSchedule (s : SchedState K) (t : Nat) (maxRecompute : Option Nat) : Bool :=
+  s.resolve ||
+    match maxRecompute with
+    | none => false
+    | some k =>
+      match s.lastUpdate with
+      | none => true
+      | some u => decide (t - u ≥ k)
+
+/-- simulator.py:124-131: `_update_schedules(new_schedule)`; only if it returns are the schedule
+    stored, `_last_schedule_update` set and `_resolve` cleared. -/
+def schedStep (stations : List String) (s : SchedState K) (t : Nat) (lastTs : Option Nat)
+    (sched : Sched K) : Except Err (SchedState K) :=
+  match updateSchedules stations s.m t lastTs sched with
+  | .error e => .error e
+  | .ok m' => .ok ⟨m', false, some t, s.history ++ [(t, sched)]⟩
+
+/-- what the simulator holds afterwards: the new state, or — the exception having propagated out of
+    `run()` — the old one -/
+def schedStepState (stations : List String) (s : SchedState K) (t : Nat) (lastTs : Option Nat)
+    (sched : Sched K) : SchedState K :=
+  match schedStep stations s t lastTs sched with
+  | .ok s' => s'
+  | .error _ => s
+
 /-! ### what a scheduler sees of earlier pilots -/
 
 /-- interface.py:348-369 `Interface.last_applied_pilot_signals`: with `i = iteration − 1`, if `i > 0`
